@@ -105,15 +105,23 @@ def main():
         orders.append(",".join(a.value.dependencies))
     out["dependency_order_vector"] = sha("|".join(orders))[:16]
     out["component_order"] = [c.name for c in ode.components]
+    shared_lists = {}  # the caller's option objects are reused between calls, as a program generating several targets does
     for req in job["requests"]:
         key = req["key"]
         try:
             sch = [Scheme(s) for s in req.get("schemes", [])] or None
+            kw = {}
+            if req.get("stiff_first"):
+                names = tuple(s.name for s in ode.states)[: req["stiff_first"]]
+                kw["stiff_states"] = shared_lists.setdefault(names, list(names))
             for rep in range(2 if req.get("repeat") else 1):
                 if req["backend"] == "c":
-                    code = gotran2c.get_code(ode, scheme=sch, format=CF.none, remove_unused=req.get("remove_unused", False))
+                    code = gotran2c.get_code(ode, scheme=sch, format=CF.none, remove_unused=req.get("remove_unused", False), **kw)
                 else:
-                    code = gotran2py.get_code(ode, scheme=sch, format=PF.none, remove_unused=req.get("remove_unused", False), backend=gotran2py.Backend(req["backend"]))
+                    code = gotran2py.get_code(ode, scheme=sch, format=PF.none, remove_unused=req.get("remove_unused", False), backend=gotran2py.Backend(req["backend"]), **kw)
+                if kw and tuple(kw["stiff_states"]) != names:
+                    out["errors"][key] = f"the caller's stiff_states list was modified: {names} -> {kw['stiff_states']}"
+                    shared_lists[names] = kw["stiff_states"] = list(names)
                 if rep == 1 and sha(code) != out["sha"][key]:
                     out["errors"][key] = "repetition in the same process changed the output"
                 out["sha"][key] = sha(code)
